@@ -17,13 +17,14 @@ TECHNIQUE = "exhaustive truncation x segmentation x consumer timing on the real 
 RULE = ("responses = {GET,HEAD} x {persistent,not} x status{200,204,304} x 0..2 interim 1xx x framing{Content-Length, "
         "Content-Length 0, duplicated Content-Length, chunked (1 chunk / 2 chunks with extension and trailer), "
         "close-delimited, none} x body{abc, empty, chunk-lookalike} x line ending{CRLF, LF} x extras{folded header, "
-        "no reason phrase, HTTP/1.0, header names and the chunked/close tokens respelt UPPER / mIXED / lower}; for each: connection lost after every byte count t in 0..len, the prefix "
+        "no reason phrase, HTTP/1.0, header names and the chunked/close tokens respelt UPPER / mIXED / lower, an interim 100/103 that itself carries Content-Length 0/5, Transfer-Encoding: "
+        "chunked or Connection: close}; for each: connection lost after every byte count t in 0..len, the prefix "
         "delivered whole / byte-at-a-time / with every single cut, deliverBody called inside the callback / before "
         "the next event / after the loss. Checked: request Deferred fires exactly once (response as soon as the "
         "headers are complete, failure if they never are), body bytes = body bytes delivered, consumer "
         "connectionLost once with ResponseDone / PotentialDataLoss / other failure. "
         "non-trivial = executions whose truncation or cut falls strictly inside the message")
-BOUNDS = {"quick": "57 responses x every truncation x {whole, bytewise, every 1-cut} x 3 consumer timings",
+BOUNDS = {"quick": "71 responses x every truncation x {whole, bytewise, every 1-cut} x 3 consumer timings",
           "thorough": "~250 responses (full product of method x persistence x status x framing x line ending, interim x framing, bodies x framing, extras); additionally every 2-cut of each full response"}
 ASSUMPTIONS = [
     "the transport is the in-memory MemTransport: while the client has paused it nothing is delivered, so a "
@@ -60,6 +61,13 @@ def build(spec):
         if i:
             out += b"X-Interim: y" + nl
         out += nl
+    if extra.startswith("i1"):
+        # an interim response that itself carries a framing / connection header: it has no body and
+        # nothing of it applies to the final response
+        icode, ihdr = extra[1:4], extra[5:]
+        out += b"HTTP/1.1 " + icode.encode() + (b" Continue" if icode == "100" else b" Early Hints") + nl
+        out += {"cl0": b"Content-Length: 0", "cl5": b"Content-Length: 5", "te": b"Transfer-Encoding: chunked",
+                "close": b"Connection: close"}[ihdr] + nl + b"X-Interim: y" + nl + nl
     version = b"HTTP/1.0" if extra == "http10" else b"HTTP/1.1"
     reason = {200: b" OK", 204: b" No Content", 304: b" Not Modified"}[status]
     if extra == "noreason":
@@ -150,6 +158,12 @@ def specs(tier):
         add(framing="cl", extra="case-upper", persistent=True)
         add(framing="cl-dup", extra="case-mixed")
         add(framing="close", extra="case-mixed", persistent=True)
+        for k, framing in enumerate(("cl", "chunked1", "close")):
+            for j, ihdr in enumerate(("cl0", "cl5", "te", "close")):
+                add(framing=framing, extra="i10%d-%s" % ((k + j) % 2 * 3, ihdr), persistent=bool(j % 2),
+                    eol="lf" if (k + j) % 3 == 2 else "crlf")
+        add(framing="none", body=b"", extra="i103-cl5")
+        add(framing="cl", status=204, extra="i100-te")
         return out
     out.extend(specs("quick"))
     base = ("cl", "chunked1", "chunked2", "close", "none")
@@ -174,6 +188,12 @@ def specs(tier):
             for method in ("GET", "HEAD"):
                 add(method, persistent, 200, 0, framing, b"abc", "crlf")
         add("GET", False, 204, 1, framing, b"abc", "lf")
+    for framing in ("cl", "chunked1", "chunked2", "close", "none"):
+        for icode in ("100", "103"):
+            for ihdr in ("cl0", "cl5", "te", "close"):
+                for persistent in (False, True):
+                    add(framing=framing, body=b"" if framing == "none" else b"abc", extra="i%s-%s" % (icode, ihdr),
+                        persistent=persistent, interim=1 if icode == "103" else 0)
     for framing in ("cl", "cl-list", "chunked1", "chunked2", "close"):
         for extra in ("case-upper", "case-mixed", "case-lower"):
             for persistent in (False, True):
@@ -377,7 +397,7 @@ def framing_class(spec):
 
 def signature(spec, fails, where, timing):
     return "HTTP11ClientProtocol:%s:%s:%s%s" % (fails[0][0], framing_class(spec), where,
-                                               ":1xx" if spec[3] and where == "in-headers" else "")
+                                               ":1xx" if (spec[3] or spec[7].startswith("i1")) and where == "in-headers" else "")
 
 
 # ---------------------------------------------------------------- contract
